@@ -3,6 +3,7 @@ A property module provides a `Prop` with one or more `Leg`s (see below)."""
 import json
 import os
 import random
+import re
 import sys
 import traceback
 
@@ -119,6 +120,15 @@ def run_check(prop, tier):
     ok_build, build_log = C.build()
     names, closed, report = ([], 0, {})
     proof_problems = []
+    if not ok_build:
+        # some file of the development does not build: decide whether THIS property's theorems and model depend on it
+        pf = C.COQ / "Props" / f"{pid}.v"
+        need = C.vo_targets([pf.read_text() if pf.exists() else ""] + [leg.imports for leg in prop.legs])
+        ok_need, _ = C.build(targets=need) if need else (False, "")
+        if ok_need:
+            cov["unrelated_build_failure"] = ("a file this property does not depend on fails to build (reported by the checks of the "
+                                              "properties that do): " + " | ".join(re.findall(r"^File \"[^\n]*", build_log, re.M)[:3]))
+            ok_build = True
     if not ok_build:
         proof_problems.append("coq build failed: " + build_log[-1500:])
     else:
